@@ -70,6 +70,8 @@ func snippetOf(o opIn) snippet.Snippet {
 			return snippet.ID(e.t)
 		}
 		return snippet.ID(litType(o))
+	case "tpl":
+		return tplSnippet(o)
 	}
 	return nil
 }
@@ -140,8 +142,25 @@ func pipelineOK(in input) bool {
 				return false
 			}
 		}
-		if o.K != "lit" && o.Path == "" {
-			return false
+		for _, h := range headPaths(o) {
+			if h == "" {
+				return false
+			}
+		}
+		if o.K == "tpl" {
+			if !tplIsTypeExpr(o) {
+				return false
+			}
+			for _, a := range o.TArgs { // entries the text does not mention as well: they would be import lines if they were registered
+				for _, p := range append(opPaths(a.Op), headPaths(a.Op)...) {
+					if p != "" && !validImportPath(p) {
+						return false
+					}
+				}
+				if a.Op.K == "ref" && a.Op.Path == "" {
+					return false
+				}
+			}
 		}
 	}
 	return true
